@@ -75,6 +75,7 @@ func init() {
 				out = append(out, Instance{Scenario: "c05_savewindow", Params: mustJSON(SaveWinParams{Savers: 2, Faults: true, PreSave: true}), Bound: 3, Shards: 16})
 			}
 			out = append(out, seq...)
+			out = append(out, Instance{Scenario: "c05_manyvb", Params: mustJSON(struct{}{}), Bound: 0, Shards: 2, Note: "one save for 129 / 300 acknowledged vBuckets"})
 			return out
 		},
 	})
@@ -343,4 +344,62 @@ func saveWindow(p SaveWinParams) {
 		sv = append(sv, fmt.Sprintf("%v/%v", sc.State, sc.Err != nil))
 	}
 	vrt.SetOutcome(strings.Join(out, ",") + "|" + strings.Join(sv, ";"))
+}
+
+// c05_manyvb: a save that has to write the checkpoints of MANY vBuckets at once (more than any plausible
+// concurrency limit of the writer): every acknowledged vBucket is stored by the first successful save, and
+// the next save has nothing left to write.
+func init() {
+	scenarios["c05_manyvb"] = func(raw json.RawMessage) *vrt.Scenario {
+		return &vrt.Scenario{Name: "c05_manyvb", FreeChoices: true, NoTimerAlt: true, MaxSteps: 5_000_000, Main: func() {
+			resetGlobals()
+			nvb := []int{129, 300}[vrt.Choose(2, true, "vbuckets")]
+			o := EnvOpts{Vbs: nvb, CheckpointType: "manual", WrapMeta: true}
+			c := NewCluster(&o)
+			for vb := 0; vb < nvb; vb++ {
+				c.Append(uint16(vb), marker(1, 1), mut(1, fmt.Sprintf("k%d", vb)))
+			}
+			e := NewEnv(c, o)
+			e.Cons.AutoAck = true
+			e.Stream.Open()
+			c.WaitIdle()
+			if len(e.Cons.Events) != nvb {
+				vrt.Failf("harness: %d of %d events delivered", len(e.Cons.Events), nvb)
+				return
+			}
+			e.Stream.Save()
+			c.WaitIdle()
+			missing := 0
+			first := -1
+			for vb := 0; vb < nvb; vb++ {
+				if st, ok := e.StoredSeq(uint16(vb)); !ok || st != 1 {
+					missing++
+					if first < 0 {
+						first = vb
+					}
+				}
+			}
+			if missing > 0 {
+				vrt.Failf("%d vBuckets acknowledged, one successful save: %d of them have no stored checkpoint (first: vb%d)", nvb, missing, first)
+			}
+			w := len(c.Writes)
+			e.Stream.Save()
+			c.WaitIdle()
+			if missing == 0 && len(c.Writes) != w {
+				vrt.Failf("%d vBuckets: a second save with nothing new performed %d writes", nvb, len(c.Writes)-w)
+			}
+			if missing > 0 {
+				stillMissing := 0
+				for vb := 0; vb < nvb; vb++ {
+					if st, ok := e.StoredSeq(uint16(vb)); !ok || st != 1 {
+						stillMissing++
+					}
+				}
+				if stillMissing > 0 {
+					vrt.Failf("%d vBuckets: after a second save %d acknowledged vBuckets are still not stored (left unpersisted indefinitely)", nvb, stillMissing)
+				}
+			}
+			vrt.SetOutcome(fmt.Sprint(nvb))
+		}}
+	}
 }
